@@ -47,9 +47,9 @@ def setup_worker() -> None:
     import zorg.storage.sql._query_converter as qc
 
     listeners.install()
-    harness.COUNTERS.watch("to_sql_select", qc.to_sql_select)
+    harness.COUNTERS.watch_attr(qc, "to_sql_select")
     for n in ("link_filters", "desc_filters", "property_filters", "file_filters", "date_ranges", "or_filters", "tags", "note_type", "priority_range"):
-        harness.COUNTERS.watch(n, getattr(qc._AndFilterToSqlWhere, n))
+        harness.COUNTERS.watch_attr(qc._AndFilterToSqlWhere, n)
 
 
 def plan(tier: str, seed: int) -> list[dict]:
